@@ -11,6 +11,11 @@ from .executor import _Abort, StarArgs
 
 def call_atom(ex, state, f, args, kwargs, node=None):
     from . import models
+    if any(isinstance(v, OptKw) for v in kwargs.values()):
+        ok = isinstance(f, VFunc) and f.fkind in ("repo", "closure", "bound")
+        ok = ok or (isinstance(f, VClass) and (f.name in models.OPTKW_MODELS or f.name not in models.CLASS_MODELS))
+        if not ok:
+            raise Unsupported("call with optionally present keywords into %r" % (f,))
     if isinstance(f, VFunc):
         if f.fkind == "logger":
             return VNone
@@ -168,6 +173,7 @@ def bind_params(ex, state, fnode, args, kwargs, module, self_val=None):
         else:
             env[a.vararg.arg] = VTuple(actual[len(names):])
     extra_kw = {}
+    optkw = {}
     sym_kw = None
     kwonly = [x.arg for x in a.kwonlyargs]
     for k, v in kwargs.items():
@@ -175,9 +181,17 @@ def bind_params(ex, state, fnode, args, kwargs, module, self_val=None):
             sym_kw = ex.narrow(state, v)
             continue
         if (k in names and k not in posonly) or k in kwonly:
+            if isinstance(v, OptKw):
+                if k in env:
+                    ex.raise_if(state, v.g, "TypeError")
+                    continue
+                optkw[k] = v
+                continue
             if k in env:
                 ex.raise_if(state, z3.BoolVal(True), "TypeError")
             env[k] = v
+        elif isinstance(v, OptKw):
+            raise Unsupported("optionally present keyword %s lands in **kwargs of the callee" % k)
         elif a.kwarg is not None:
             extra_kw[k] = v
         else:
@@ -205,13 +219,25 @@ def bind_params(ex, state, fnode, args, kwargs, module, self_val=None):
         if n not in env:
             di = i - (len(names) - len(defaults))
             if di < 0:
+                if n in optkw:
+                    ex.raise_if(state, z3.Not(optkw[n].g), "TypeError")
+                    env[n] = optkw[n].v
+                    continue
                 ex.raise_if(state, z3.BoolVal(True), "TypeError")
             env[n] = eval_in_module(ex, state, module, defaults[di])
+            if n in optkw:
+                env[n] = mk_union([(optkw[n].g, optkw[n].v), (z3.Not(optkw[n].g), env[n])])
     for n, d in zip(kwonly, a.kw_defaults):
         if n not in env:
             if d is None:
+                if n in optkw:
+                    ex.raise_if(state, z3.Not(optkw[n].g), "TypeError")
+                    env[n] = optkw[n].v
+                    continue
                 ex.raise_if(state, z3.BoolVal(True), "TypeError")
             env[n] = eval_in_module(ex, state, module, d)
+            if n in optkw:
+                env[n] = mk_union([(optkw[n].g, optkw[n].v), (z3.Not(optkw[n].g), env[n])])
     if a.kwarg is not None:
         o = HObj("dict")
         if sym_copy is not None:
